@@ -5,7 +5,7 @@ import subprocess
 import time
 from concurrent.futures import ThreadPoolExecutor
 
-from verif import (EVIDENCE, REPLAYS, Infra, Verdict, Work, build_driver, goenv, load_known, log, match_known,
+from verif import (EVIDENCE, REPLAYS, WORKROOT, Infra, Verdict, Work, build_driver, goenv, load_known, log, match_known,
                    read_ndjson, run_driver, save_replay, tlc_expect_ok, tlc_expect_violation, write_ndjson)
 
 MUTANTS = {"no_kmu": "InvLocks", "in_place": "InvPublishedImmutable", "early_runlock": "InvSearchUnderLock"}
@@ -101,7 +101,7 @@ def race_run(work, seed, rounds):
     binary = build_driver(race=True)
     tf = work.path("race.trace.ndjson")
     e = goenv()
-    e["VERIF_WORK"] = os.path.join(os.path.dirname(EVIDENCE), ".work")
+    e["VERIF_WORK"] = WORKROOT
     e["GORACE"] = "halt_on_error=0 exitcode=0"
     p = subprocess.run([binary, "c07", "-trace", tf, "-seed", str(seed + 7), "-rounds", str(rounds)],
                        capture_output=True, text=True, env=e, timeout=1800)
